@@ -525,6 +525,19 @@ def rawBlockBindsOk (T : Tables) (G : GTables) (block : Val) : Bool :=
 def blocksBindOk (T : Tables) (G : GTables) (file : Val) : Bool :=
   (sectionBlocks T file T.kTraining).all (rawBlockBindsOk T G) && (sectionBlocks T file T.kValidation).all (rawBlockBindsOk T G)
 
+/-! ## a `str` field must not default to an enum member -/
+
+/-- no `str`-typed field of the class holds, as its default, the text `Cls.NAME` of an enum member (what OmegaConf stores for
+`x: str = Cls.NAME`): such a value is neither the member (whose `==` is case-insensitive) nor its value, and every dispatch
+on it silently takes the fallback branch -/
+def strDefaultsPlain (G : GTables) : Ty → Bool
+  | .struct _ fields =>
+    fields.all fun f =>
+      match f.2.1.core, f.2.2 with
+      | .str, .str s _ => (lookup s G.enumValues).isNone
+      | _, _ => true
+  | _ => true
+
 /-! ## attribute chains `cfg.a.b.c` against the typed schema -/
 
 /-- the chain only names declared fields: below a dataclass every step must be a field; below `Any` / a list nothing is
